@@ -299,12 +299,12 @@ func compsEqual(a, b []string) bool { return len(a) == len(b) && compsHasPrefix(
 
 func absOf(comps []string) string { return "/" + strings.Join(comps, "/") }
 
-type refFS struct {
+type c05RefFS struct {
 	root     *vnode
 	physical bool // disk semantics (links, physical ".."); otherwise lexical (in-memory FS)
 }
 
-func (r refFS) resolve(abs string) refResult {
+func (r c05RefFS) resolve(abs string) refResult {
 	if r.physical {
 		return refPhysical(r.root, abs, 255)
 	}
@@ -315,7 +315,7 @@ func (r refFS) resolve(abs string) refResult {
 // Go semantics of a reference: filepath.Join (relative references) and filepath.Abs (on disk)
 // normalise "." and ".." lexically before any link is looked at.  The in-memory FS takes an
 // absolute reference as it is (and then finds nothing above its top).
-func (r refFS) resolveRef(root []string, p string) refResult {
+func (r c05RefFS) resolveRef(root []string, p string) refResult {
 	switch {
 	case !strings.HasPrefix(p, "/"):
 		return r.resolve(filepath.Clean(absOf(root) + "/" + p))
@@ -327,7 +327,7 @@ func (r refFS) resolveRef(root []string, p string) refResult {
 }
 
 // refLoad: what a root-only load of reference p by a loader rooted at root may return.
-func (r refFS) refLoad(root []string, p string) (ok bool, content string, why string) {
+func (r c05RefFS) refLoad(root []string, p string) (ok bool, content string, why string) {
 	if p == "" {
 		return false, "", "empty"
 	}
@@ -345,7 +345,7 @@ func (r refFS) refLoad(root []string, p string) (ok bool, content string, why st
 }
 
 // refNew: whether a directory reference p may become a new root given the stack of roots.
-func (r refFS) refNew(stack [][]string, p string) (ok bool, newRoot []string, why string) {
+func (r c05RefFS) refNew(stack [][]string, p string) (ok bool, newRoot []string, why string) {
 	if p == "" {
 		return false, nil, "empty"
 	}
